@@ -553,6 +553,74 @@ fn failing_files(rng: &mut Rng, n: usize) -> Vec<corpus::TestFile> {
     out
 }
 
+/// files with well-formed framing and well-formed zlib streams whose failure is raised by the Reader layer: a frame that holds
+/// fewer rows than its header announces, or an undefined filter-type byte in some row (stills; first or second APNG frame)
+fn semantic_failing_files(rng: &mut Rng, n: usize) -> Vec<corpus::TestFile> {
+    let mut out = vec![];
+    for i in 0..n {
+        let mut r = rng.fork(4000 + i as u64);
+        let img = Img::random(&mut r, [0u8, 2, 3, 4, 6][i % 5], 8, 7, 7);
+        let interlace = i % 4 == 3;
+        let damage = |raw: &mut Vec<u8>, r: &mut Rng, kind: usize, rb: usize, h: usize| {
+            if kind == 0 {
+                // drop 1..h-1 whole rows (and sometimes part of one more) from the end
+                let keep_rows = if h > 1 { r.usize(0, h - 1) } else { 0 };
+                let cut = (keep_rows * (rb + 1) + if r.usize(0, 2) == 0 { r.usize(0, rb) } else { 0 }).min(raw.len().saturating_sub(1));
+                raw.truncate(cut);
+            } else if !raw.is_empty() {
+                let row = r.usize(0, h - 1);
+                let at = (row * (rb + 1)).min(raw.len() - 1);
+                raw[at] = r.range(5, 255) as u8;
+            }
+        };
+        let kind = i % 2;
+        let (mut raw, _) = scanlines(&img, interlace, &Filters::Random, &mut r);
+        let mut cs = vec![ihdr(img.w, img.h, img.depth, img.color, interlace as u8)];
+        if img.color == 3 {
+            cs.push(RawChunk::new(b"PLTE", (0..(3usize << img.depth.min(8))).map(|k| k as u8).collect()));
+        }
+        let animated = i % 3 != 0;
+        let name = if kind == 0 { "fail-short-data" } else { "fail-bad-filter" };
+        if !animated {
+            if !interlace {
+                damage(&mut raw, &mut r, kind, img.row_bytes(), img.h as usize);
+            } else if kind == 0 {
+                let n = raw.len();
+                raw.truncate(r.usize(0, n - 1));
+            } else {
+                raw[0] = r.range(5, 255) as u8;
+            }
+            cs.push(RawChunk::new(b"IDAT", zlib_stream(&raw, &Deflater::Level(6))));
+        } else {
+            // two full-canvas frames; the damaged one is the first or the second
+            let second = Img::random(&mut r, img.color, img.depth, img.w, img.w);
+            let second = Img { w: img.w, h: img.h, ..second };
+            let second = if second.pixels.len() == img.pixels.len() { second } else { img.clone() };
+            let (mut raw2, _) = scanlines(&second, interlace, &Filters::Random, &mut r);
+            let which = i % 4 < 2;
+            let target: &mut Vec<u8> = if which { &mut raw } else { &mut raw2 };
+            if !interlace {
+                damage(target, &mut r, kind, img.row_bytes(), img.h as usize);
+            } else if kind == 0 {
+                let n = target.len();
+                target.truncate(r.usize(0, n - 1));
+            } else {
+                target[0] = r.range(5, 255) as u8;
+            }
+            cs.push(actl(2, 0));
+            cs.push(Fctl { seq: 0, w: img.w, h: img.h, x: 0, y: 0, delay_num: 1, delay_den: 1, dispose: 0, blend: 0 }.chunk());
+            cs.push(RawChunk::new(b"IDAT", zlib_stream(&raw, &Deflater::Level(6))));
+            cs.push(Fctl { seq: 1, w: img.w, h: img.h, x: 0, y: 0, delay_num: 1, delay_den: 1, dispose: 0, blend: 0 }.chunk());
+            let mut d = 2u32.to_be_bytes().to_vec();
+            d.extend(zlib_stream(&raw2, &Deflater::Level(6)));
+            cs.push(RawChunk::new(b"fdAT", d));
+        }
+        cs.push(RawChunk::new(b"IEND", vec![]));
+        out.push(corpus::TestFile { bytes: serialize(&cs), source: name.into(), model_domain: false });
+    }
+    out
+}
+
 /// index of the first terminal event in a token list: a fatal (format/limits) error, a successful finish, or the
 /// end-of-image report after the last frame
 fn first_terminal(tokens: &[String], ops: &[Op]) -> Option<usize> {
@@ -577,6 +645,7 @@ pub fn run_c18(ctx: &mut Ctx) {
     let mut rng = ctx.rng.fork(1);
     let mut files = failing_files(&mut rng, ctx.n(14, 70));
     files.extend(small_valid_files(&mut rng, ctx.n(6, 24)));
+    files.extend(semantic_failing_files(&mut rng, ctx.n(12, 60)));
     // a 3-frame APNG whose first frame has an undefined filter-type byte in its fifth row (D19: found by the thorough tier)
     // (model_domain = false: the frame count of the reference decoder stops at the damaged frame; later frames do exist)
     files.push(corpus::TestFile { bytes: unhex(BAD_FILTER_APNG).unwrap_or_default(), source: "fail-mid-frame".into(), model_domain: false });
@@ -622,7 +691,24 @@ pub fn run_c18(ctx: &mut Ctx) {
                             let et = t.err_texts.get(ti).cloned().unwrap_or_default();
                             let slug: String = et.chars().take_while(|c| !c.is_ascii_digit() && *c != ':' && *c != '(').collect::<String>().trim().to_lowercase().replace(' ', "-");
                             let slug: String = slug.chars().take(48).collect();
-                            let opname = match ops.get(j) { Some(Op::NextFrame(_)) => "next_frame", Some(Op::NextRow) => "next_row", Some(Op::ReadRow) => "read_row", Some(Op::NextFrameInfo) => "next_frame_info", Some(Op::Finish) => "finish", _ => "other" };
+                            let mut opname = match ops.get(j) { Some(Op::NextFrame(_)) => "next_frame", Some(Op::NextRow) => "next_row", Some(Op::ReadRow) => "read_row", Some(Op::NextFrameInfo) => "next_frame_info", Some(Op::Finish) => "finish", _ => "other" };
+                            if tok.starts_with("frame(") {
+                                // which frame is it?  A later frame of the file, exactly as obtained by skipping the failed one
+                                // (D19: the error is not sticky) - or pixels that belong to no frame of the file
+                                let mut later: Vec<String> = vec![];
+                                for skip in 1..=4usize {
+                                    let mut o = vec![Op::ReadInfo];
+                                    o.extend(std::iter::repeat(Op::NextFrameInfo).take(skip));
+                                    o.push(Op::NextFrame(0));
+                                    let tt = rops::run_ops(&f.bytes, f.bytes.len(), &o, &cfg);
+                                    if let Some(last) = tt.tokens.last() {
+                                        if last.starts_with("frame(") {
+                                            later.push(last.clone());
+                                        }
+                                    }
+                                }
+                                opname = if later.iter().any(|x| x == tok) { "next_frame-delivers-a-later-frame" } else { "next_frame-delivers-pixels-of-no-frame" };
+                            }
                             ctx.rep.violation("oracle", &format!("success-after-fatal/{}/{}", slug, opname), &format!("[{}] on a {} file: call {} ({}) returned `{}` after the fatal error at call {} (`{}`)", rops::ops_string(&ops), f.source, j, opname, tok, ti, et), case(&f.bytes, f.bytes.len(), &ops, &cfg));
                             break;
                         }
